@@ -1121,6 +1121,10 @@ def run(ctx):
             continue
         F, m = coq_func(c['f'])
         pts = ck.points
+        if ctx.tier == 'thorough':
+            gp = [P for P in pts if P['grid']]
+            sp = [P for P in pts if not P['grid']]
+            pts = gp[:2] + gp[-1:] + sp[:3]       # <= 6 points per function in Coq; all points in the oracle stage
         if ctx.tier != 'thorough':
             gp = [P for P in pts if P['grid']]
             sp = [P for P in pts if not P['grid']]
